@@ -118,8 +118,6 @@ class Element:
         """
 
         N = len(waveform)
-        self._data[channel] = {}
-        self._data[channel]["array"] = {}
 
         for name, array in kwargs.items():
             if len(array) != N:
@@ -127,6 +125,11 @@ class Element:
                     "Length mismatch between waveform and "
                     f"array {name}. Must be same length"
                 )
+
+        self._data[channel] = {}
+        self._data[channel]["array"] = {}
+
+        for name, array in kwargs.items():
             self._data[channel]["array"].update({name: array})
 
         self._data[channel]["array"]["wfm"] = waveform
